@@ -85,4 +85,23 @@ structure Shape (i : Gen.Instr) (e : Gen.Execution) : Prop where
   pcBranch : e.PcChange = true → isBranchType i.instructionType = true
   retPlain : e.Return = true → e.RegisterChange = false ∧ e.MemoryChange = false ∧ e.PcChange = false
 
+
+theorem ite_ok {ε α} (c : Prop) [Decidable c] (a b : α) :
+    (if c then (Except.ok a : Except ε α) else Except.ok b) = Except.ok (if c then a else b) := by
+  split <;> rfl
+
+theorem ite_pair {α β} (c : Prop) [Decidable c] (a b : α) (x y : β) :
+    (if c then (a, x) else (b, y)) = (if c then a else b, if c then x else y) := by
+  split <;> rfl
+
+set_option maxHeartbeats 4000000 in
+theorem run_shape (i : Gen.Instr) (c : Model.Context) (labels : GoMap String Word) (pc : Word)
+    (mem : List Byte) (seq : Word) (e : Gen.Execution) (h : i.run c labels pc mem seq = .ok e) : Shape i e := by
+  cases i <;> unfold_instr at h ⊢ <;>
+    simp only [isRegisterChange_eq, pure, Except.pure, ite_ok, ite_pair, ite_self, bind, Except.bind, throw, throwThe, MonadExceptOf.throw] at h <;>
+    (repeat' split at h) <;>
+    (first
+      | (injection h with h; subst h; constructor <;> (try unfold_instr) <;> simp [isBranchType, Gen.InstructionType.IsUnconditionalBranch, Gen.InstructionType.IsConditionalBranch])
+      | (exact absurd h (by simp)))
+
 end Proofs.Mvp4
